@@ -1047,6 +1047,17 @@ class name_holder:
 from pkg import item as name
 print(name, name_list, use, name_holder)
 """,
+    'assignment expressions several comprehension levels deep, read outside the comprehensions': """
+def summarize(rows):
+    last = None
+    flat = [[(last := cell) for cell in row] for row in rows]
+    seen = {key: [(last := (key, item)) for item in items if (count := len(items))] for key, items in rows}
+    return flat, last, seen, count
+total = 0
+table = [[(total := total + n) for n in r] for r in [[1, 2], [3]]]
+gen = list(((total := total * 2) for _ in r) for r in [[1], [2]])
+print(summarize, total, table, gen)
+""",
     'nested closures that shadow and re-use one name': """
 def level0(v):
     def level1():
